@@ -260,6 +260,9 @@ func TestC09(t *testing.T) {
 			do("corpus", ty)
 		}
 	}
+	for _, ty := range wideContainers() {
+		do("wide", ty)
+	}
 	for k := 0; k < n; k++ {
 		do("gen", g.ty(1+g.r.Intn(3)))
 	}
